@@ -1222,6 +1222,9 @@ func c02ErrFlowCore(c ssa.CallInstruction, o ErrFlowOpts) ErrFlowResult {
 // returned but handed to an in-module helper which maps it faithfully is
 // analysed through the helper (the helper's result must then surface).
 func c02ErrFlow(call ssa.CallInstruction, o ErrFlowOpts, depth int) ErrFlowResult {
+	if yr, handled := c02YieldErrFlow(call, o); handled {
+		return yr
+	}
 	r := c02ErrFlowCore(call, o)
 	if r.OK || depth > 2 {
 		return r
@@ -2748,4 +2751,225 @@ func c02FindCalls(f *ssa.Function, name string, chain []ssa.CallInstruction, dep
 		}
 	}
 	return out
+}
+
+// ---------- range-over-func yield bodies ----------
+
+// c02YieldBody: fn is the yield closure go/ssa synthesises for the body of a
+// `for x := range seq` loop over a function iterator: a closure returning
+// bool that captured the synthesized jump variable of its parent.  Returns
+// the parent's MakeClosure and the jump variable.
+func c02YieldBody(fn *ssa.Function) (*ssa.MakeClosure, *ssa.Alloc) {
+	par := fn.Parent()
+	if par == nil || fn.Signature.Results().Len() != 1 {
+		return nil, nil
+	}
+	if b, ok := fn.Signature.Results().At(0).Type().Underlying().(*types.Basic); !ok || b.Kind() != types.Bool {
+		return nil, nil
+	}
+	var mc *ssa.MakeClosure
+	AllInstrs(par, func(in ssa.Instruction) {
+		if m, ok := in.(*ssa.MakeClosure); ok && m.Fn == fn {
+			mc = m
+		}
+	})
+	if mc == nil {
+		return nil, nil
+	}
+	for _, b := range mc.Bindings {
+		if a, ok := b.(*ssa.Alloc); ok && strings.HasPrefix(a.Comment, "jump$") {
+			return mc, a
+		}
+	}
+	return nil, nil
+}
+
+// c02YieldErrFlow decides the error discipline of a call inside a
+// range-over-func loop body.  There "return ..., err" is lowered to: store
+// the results into the enclosing function's (captured) result variables, set
+// the jump variable to the exit code k, return false from the yield closure;
+// the enclosing function, after the iterator call, returns those variables on
+// the `jump == k` branch.  The failure surfaces iff, on every path from the
+// non-nil edge (or from the call, when the error is stored untested), the body
+// stores the error (or a wrapper) into the captured error result, is not
+// followed by another store there, leaves with `return false` and an exit
+// code whose branch in the enclosing function returns that variable.
+func c02YieldErrFlow(call ssa.CallInstruction, o ErrFlowOpts) (ErrFlowResult, bool) {
+	fn := call.Parent()
+	mc, jumpVar := c02YieldBody(fn)
+	if mc == nil {
+		return ErrFlowResult{}, false
+	}
+	if _, isDefer := call.(*ssa.Defer); isDefer {
+		return ErrFlowResult{}, false
+	}
+	e := ErrOf(call)
+	if e == nil {
+		return ErrFlowResult{OK: false, Detail: "error result is discarded (never extracted)", At: call.Pos()}, true
+	}
+	par := fn.Parent()
+	if pm, _ := c02YieldBody(par); pm != nil {
+		return ErrFlowResult{OK: false, Detail: "nested range-over-func bodies: exit protocol not followed (undecided shape)", At: call.Pos()}, true
+	}
+	parErrIdx := ErrResultIndex(par.Signature)
+	if parErrIdx < 0 {
+		return ErrFlowResult{OK: false, Detail: "the function enclosing the range-over-func loop has no error result", At: call.Pos()}, true
+	}
+	binding := map[*ssa.FreeVar]*ssa.Alloc{}
+	for i, b := range mc.Bindings {
+		if a, ok := b.(*ssa.Alloc); ok {
+			binding[fn.FreeVars[i]] = a
+		}
+	}
+	aliases := Aliases(e)
+	carries := func(v ssa.Value) bool {
+		return aliases[v] || aliases[strip(v)] || derivesFromAny(v, aliases, 0)
+	}
+	cutTol := newCut().Edges(c02ToleratedEdges(fn, aliases, o.Tolerated)...)
+	type st struct {
+		b      *ssa.BasicBlock
+		cell   *ssa.Alloc // the parent's variable that currently holds the error
+		jump   int64
+		hasJmp bool
+	}
+	visited := map[st]bool{}
+	var fail string
+	var failAt token.Pos
+	var walk func(b *ssa.BasicBlock, i int, cell *ssa.Alloc, jump int64, hasJmp bool)
+	walk = func(b *ssa.BasicBlock, i int, cell *ssa.Alloc, jump int64, hasJmp bool) {
+		if fail != "" {
+			return
+		}
+		if i == 0 {
+			k := st{b, cell, jump, hasJmp}
+			if visited[k] {
+				return
+			}
+			visited[k] = true
+		}
+		for ; i < len(b.Instrs); i++ {
+			switch x := b.Instrs[i].(type) {
+			case *ssa.Store:
+				fv, ok := x.Addr.(*ssa.FreeVar)
+				if !ok {
+					continue
+				}
+				a := binding[fv]
+				if a == nil {
+					continue
+				}
+				if a == jumpVar {
+					if k, ok := constInt(x.Val); ok {
+						jump, hasJmp = k, true
+					} else {
+						hasJmp = false
+					}
+					continue
+				}
+				if isErrorType(a.Type().(*types.Pointer).Elem()) {
+					if carries(x.Val) {
+						cell = a
+					} else if a == cell {
+						cell = nil // overwritten
+					}
+				}
+			case *ssa.Call:
+				if ssa.Instruction(x) == call.(ssa.Instruction) {
+					return // a new error value
+				}
+			case *ssa.Return:
+				failAt = x.Pos()
+				if c, ok := x.Results[0].(*ssa.Const); !ok || c.Value == nil || c.Value.String() != "false" {
+					fail = "after the failure the loop body continues with the next element (the error is dropped)"
+					return
+				}
+				if cell == nil {
+					fail = "the loop body leaves the loop without storing the error into the enclosing function's error result"
+					return
+				}
+				if !hasJmp || !c02ExitReturnsCell(par, jumpVar, jump, cell, parErrIdx) {
+					fail = "the loop is left, but the enclosing function does not return the variable holding the error on that exit"
+					return
+				}
+				failAt = token.NoPos
+				return
+			case *ssa.Panic:
+				return
+			}
+		}
+		for _, sc := range b.Succs {
+			if cutTol.edges[Edge{b, sc}] {
+				continue
+			}
+			walk(sc, 0, cell, jump, hasJmp)
+		}
+	}
+	_, nonNilE, ifs := NilTests(fn, aliases)
+	how := "range-over-func body: stored into the enclosing function's error result and the loop is left on the exit that returns it"
+	if len(ifs) == 0 {
+		walk(call.Block(), instrIndex(call.(ssa.Instruction))+1, nil, 0, false)
+	} else {
+		for _, ne := range nonNilE {
+			walk(ne.To, 0, nil, 0, false)
+		}
+		how = "tested; " + how
+	}
+	if fail != "" {
+		at := call.Pos()
+		if failAt.IsValid() {
+			at = failAt
+		}
+		return ErrFlowResult{OK: false, Detail: "in a range-over-func loop body: " + fail, At: at}, true
+	}
+	return ErrFlowResult{OK: true, How: how}, true
+}
+
+// c02ExitReturnsCell: in par, on the branch `jump == k` taken after the
+// iterator call, every return yields the content of cell as the error result
+// and nothing is stored into cell before.
+func c02ExitReturnsCell(par *ssa.Function, jumpVar *ssa.Alloc, k int64, cell *ssa.Alloc, errIdx int) bool {
+	found := false
+	ok := true
+	for _, ifi := range Ifs(par) {
+		cond, t, _ := ifEdges(ifi)
+		bo, isBin := cond.(*ssa.BinOp)
+		if !isBin || bo.Op != token.EQL {
+			continue
+		}
+		ld, isLoad := bo.X.(*ssa.UnOp)
+		if !isLoad || ld.Op != token.MUL || ld.X != ssa.Value(jumpVar) {
+			continue
+		}
+		if kk, isK := constInt(bo.Y); !isK || kk != k {
+			continue
+		}
+		found = true
+		visited := map[*ssa.BasicBlock]bool{}
+		var walk func(b *ssa.BasicBlock)
+		walk = func(b *ssa.BasicBlock) {
+			if visited[b] || !ok {
+				return
+			}
+			visited[b] = true
+			for _, in := range b.Instrs {
+				switch x := in.(type) {
+				case *ssa.Store:
+					if x.Addr == ssa.Value(cell) {
+						ok = false
+						return
+					}
+				case *ssa.Return:
+					if errIdx >= len(x.Results) || cellOf(x.Results[errIdx]) != cell {
+						ok = false
+					}
+					return
+				}
+			}
+			for _, sc := range b.Succs {
+				walk(sc)
+			}
+		}
+		walk(t.To)
+	}
+	return found && ok
 }
